@@ -5,6 +5,7 @@ import (
 	"os"
 	"strings"
 	"testing"
+	"unicode/utf8"
 
 	"github.com/opsidian/parsley/combinator"
 	"github.com/opsidian/parsley/data"
@@ -21,6 +22,7 @@ type C03Case struct {
 	MemoRules []bool   `json:"memoRules"`
 	Sentence  bool     `json:"sentence"`
 	PreLen    int      `json:"preLen,omitempty"` // > 0: the parsed file follows a file of that length in the file set
+	Wide      int      `json:"wide,omitempty"`   // != 0: the terminal 'b' and the input byte 'b' are this multi-byte rune
 }
 
 func (c *C03Case) Describe() string {
@@ -34,8 +36,12 @@ type outcome struct {
 	Calls  int
 }
 
-func runC03(g *Grammar, in string, memoRules []bool, noMemo bool, probe *Probe, sentence bool, preLen int) outcome {
-	b := Build(g, BuildOpts{MemoRules: memoRules, NoMemo: noMemo, Probe: probe})
+func runC03(g *Grammar, in string, memoRules []bool, noMemo bool, probe *Probe, sentence bool, preLen int, wide ...rune) outcome {
+	o0 := BuildOpts{MemoRules: memoRules, NoMemo: noMemo, Probe: probe}
+	if len(wide) > 0 {
+		o0.Wide = wide[0]
+	}
+	b := Build(g, o0)
 	ctx, f := NewCtx(in)
 	if preLen > 0 {
 		f = newFileOwned("f", []byte(in))
@@ -73,13 +79,21 @@ func checkC03(ci interface{}, st *Stats) error {
 	if len(c.MemoRules) != len(g.Rules) {
 		return Discard{"memoRules length"}
 	}
+	wide := rune(c.Wide)
+	if wide != 0 {
+		if wide < 0x80 || !utf8.ValidRune(wide) {
+			return Discard{"not a multi-byte rune"}
+		}
+		in = widen(in, wide).Lib // both grammars get the same transliterated input
+		st.Class("terminal b is a multi-byte rune")
+	}
 	none := make([]bool, len(g.Rules))
 	pp := NewProbe()
 	pp.Bound = false
-	plain := runC03(g, in, none, true, pp, c.Sentence, c.PreLen)
+	plain := runC03(g, in, none, true, pp, c.Sentence, c.PreLen, wide)
 	probe := NewProbe()
 	probe.Bound = false
-	m1 := runC03(g, in, c.MemoRules, false, probe, c.Sentence, c.PreLen)
+	m1 := runC03(g, in, c.MemoRules, false, probe, c.Sentence, c.PreLen, wide)
 	for k, v := range probe.evals {
 		if v > 1 {
 			who := fmt.Sprintf("expression #%d", k[0])
@@ -94,12 +108,12 @@ func checkC03(ci interface{}, st *Stats) error {
 	}
 	p2 := NewProbe()
 	p2.Bound = false
-	m2 := runC03(g, in, c.MemoRules, false, p2, c.Sentence, c.PreLen)
+	m2 := runC03(g, in, c.MemoRules, false, p2, c.Sentence, c.PreLen, wide)
 	if m1 != m2 {
 		return fmt.Errorf("a repeated parse with a fresh context differs:\n first  %+v\n second %+v", m1, m2)
 	}
 	// without any wrapper parsers (the probes must not be what makes it work)
-	m3 := runC03(g, in, c.MemoRules, false, nil, c.Sentence, c.PreLen)
+	m3 := runC03(g, in, c.MemoRules, false, nil, c.Sentence, c.PreLen, wide)
 	if m3 != m1 {
 		return fmt.Errorf("the un-instrumented build differs:\n probed %+v\n bare   %+v", m1, m3)
 	}
@@ -157,9 +171,19 @@ func init() {
 				fixRepetitions(g, t, o.Alphabet)
 				g.number()
 			}
+			aliased := !shared && rapid.IntRange(0, 1).Draw(t, "alias") == 0
+			if aliased {
+				// a cached multi-result list consumed several times at one position by consecutive
+				// elements of one sequence, each of which extends it
+				aliasSkeleton(t, g, o)
+				fixRepetitions(g, t, o.Alphabet)
+				fixLeftRecursion(g, t, o.Alphabet)
+				fixRepetitions(g, t, o.Alphabet)
+				g.number()
+			}
 			memo := make([]bool, len(g.Rules))
 			for i := range memo {
-				memo[i] = rapid.IntRange(0, 2).Draw(t, "memoRule") > 0
+				memo[i] = rapid.IntRange(0, 2).Draw(t, "memoRule") > 0 || aliased
 			}
 			if shared {
 				memo[len(memo)-1] = rapid.IntRange(0, 5).Draw(t, "memoShared") > 0
@@ -171,7 +195,11 @@ func init() {
 					pre = rapid.SampledFrom([]int{65533, 65534, 65536, 70000, 140000}).Draw(t, "hugeLen")
 				}
 			}
-			return &C03Case{G: g, In: GenInput(t, g, o), MemoRules: memo, Sentence: rapid.Bool().Draw(t, "sentence"), PreLen: pre}
+			wideRune := 0
+			if !o.RefTrims && rapid.IntRange(0, 4).Draw(t, "wide") == 0 {
+				wideRune = int(rapid.SampledFrom([]rune{0x80, 0xe9, 0xff, 0x7ff, 0x800, 0x20ac, 0xfffd, 0x10000, 0x1f600}).Draw(t, "wideRune"))
+			}
+			return &C03Case{G: g, In: GenInput(t, g, o), MemoRules: memo, Sentence: rapid.Bool().Draw(t, "sentence"), PreLen: pre, Wide: wideRune}
 		},
 		Check: checkC03,
 	})
